@@ -68,6 +68,10 @@ def cases(tier: str, seed: int) -> List[Dict[str, Any]]:
                 if alt != SPINE[i]:
                     comps.append(SPINE[:i] + [alt] + SPINE[i + 1:])
         comps.append(list(SPINE))
+        # compiled regions that RETURN several backward-only-scaled aliases of one intermediate
+        for which in ("residual_split", "two_scale_bwd", "split_and_value"):
+            for dt in ("float32", "float64"):
+                out.append({"kind": "multi_out", "which": which, "backend": be, "dtype": dt, "seed": seed})
         for c in comps:
             out.append({"kind": "comp", "ops": c, "backend": be, "dtype": "float32" if len(c) % 2 == 0 else "float64", "seed": seed})
     return out
@@ -280,6 +284,41 @@ def run_case(case: Dict[str, Any]) -> Dict[str, Any]:
         except Exception:  # noqa - not symbolically traceable (einops / data-dependent control flow): outside the clause
             pass
         return {"violations": viol, "steps": 3, "nontrivial": graphs[0] > 0, "outcome": f"{be_name}:module"}
+
+    if case["kind"] == "multi_out":
+        import unit_scaling.functional as U
+        from unit_scaling.scale import scale_bwd
+
+        dtype = tdtype(case["dtype"])
+        ident = f"multi_out|{be_name}|{case['which']}|dtype={case['dtype']}"
+        fns = {
+            "residual_split": lambda x: U.residual_split(torch.tanh(x), 0.5),
+            "two_scale_bwd": lambda x: (scale_bwd(x * 2, 3.0), scale_bwd(x * 2, 5.0)),
+            "split_and_value": lambda x: (U.residual_split(U.gelu(x), 0.25)[0], U.gelu(x)),
+        }
+        fn = fns[case["which"]]
+        src = "def compiled_multi(x):\n    return fn(x)\n"
+        ns3: Dict[str, Any] = {"fn": fn}
+        exec(compile(src, f"<c20m-{case['which']}>", "exec"), ns3)
+        x0 = torch.randn(3, 5, generator=torch.Generator().manual_seed(4), dtype=torch.float64).to(dtype)
+
+        def both(f: Any) -> Any:
+            x = x0.clone().requires_grad_(True)
+            a, b = f(x)
+            (gx,) = torch.autograd.grad((a * 1.5).sum() + (b * b).sum(), x)
+            return a.detach(), b.detach(), gx
+
+        try:
+            ea, eb, eg = both(fn)
+            ca, cb, cg = both(torch.compile(ns3["compiled_multi"], backend=backend))
+        except Exception as e:  # noqa
+            return {"violations": [exception_violation(e, ident)], "outcome": "raises"}
+        tol = TOL[case["dtype"]]
+        if not (_close(ca, ea, tol) and _close(cb, eb, tol)):
+            viol.append({"key": ident + "|compiled_differs|output", "msg": ""})
+        elif not _close(cg, eg, tol, floor=1.0):
+            viol.append({"key": ident + "|compiled_differs|grad", "msg": f"eager grad[0,0]={eg[0, 0].item()!r} compiled {cg[0, 0].item()!r}"})
+        return {"violations": viol, "steps": 2, "nontrivial": graphs[0] > 0, "outcome": f"{be_name}:multi_out"}
 
     # ---- compositions
     dtype = tdtype(case["dtype"])
